@@ -82,6 +82,7 @@ simple_code(void *coder_ptr, const lzma_allocator *allocator,
 
 	// Flush already filtered data from coder->buffer[] to out[].
 	if (coder->pos < coder->filtered) {
+		VERIF_VISIT(VERIF_D_SIMPLE, VERIF_SIMPLE_FLUSH_POS);
 		lzma_bufcpy(coder->buffer, &coder->pos, coder->filtered,
 				out, out_pos, out_size);
 
@@ -112,6 +113,7 @@ simple_code(void *coder_ptr, const lzma_allocator *allocator,
 		// Store the old position so that we know from which byte
 		// to start filtering.
 		const size_t out_start = *out_pos;
+		VERIF_VISIT(VERIF_D_SIMPLE, VERIF_SIMPLE_DIRECT);
 
 		// Flush data from coder->buffer[] to out[], but don't reset
 		// coder->pos and coder->size yet. This way the coder can be
@@ -157,11 +159,13 @@ simple_code(void *coder_ptr, const lzma_allocator *allocator,
 			// The last byte has been copied to out[] already.
 			// They are left as is.
 			coder->size = 0;
+			VERIF_VISIT(VERIF_D_SIMPLE, VERIF_SIMPLE_END_FLUSH);
 
 		} else if (unfiltered > 0) {
 			// There is unfiltered data left in out[]. Copy it to
 			// coder->buffer[] and rewind *out_pos appropriately.
 			*out_pos -= unfiltered;
+			VERIF_VISIT(VERIF_D_SIMPLE, VERIF_SIMPLE_HOLDBACK);
 			memcpy(coder->buffer, out + *out_pos, unfiltered);
 		}
 	} else if (coder->pos > 0) {
@@ -177,6 +181,7 @@ simple_code(void *coder_ptr, const lzma_allocator *allocator,
 	// filtered data to out[]. It is probable, that some filtered and
 	// unfiltered data will be left to coder->buffer[].
 	if (coder->size > 0) {
+		VERIF_VISIT(VERIF_D_SIMPLE, VERIF_SIMPLE_BUFFERED);
 		{
 			const lzma_ret ret = copy_or_code(coder, allocator,
 					in, in_pos, in_size,
